@@ -1,6 +1,7 @@
 (* Property C02 - theorem statements only; every proof is `exact <lemma>` into Proofs/. *)
 From Coq Require Import List Arith NArith ZArith Bool String.
 From Coq.Strings Require Import Byte.
+From Gopki.Proofs Require Import CanonProofs.
 From Gopki.Model Require Import Bytes Base64 Pem Der Asn1 Text Algs Glue Pkcs8 Ext Rdn Time X509 Generate HashView Dir Plan Run Ops Cli Merge Validate Current.
 From Gopki.Spec Require Import RegenSpec DirInv MergeSpec ValidateSpec X509Spec ExtSpec AdmissionSpec PolicySpec.
 From Gopki.Proofs Require Import RunProofs ExtProofs PlanProofs WfProofs X509Proofs DerProofs Asn1Proofs TimeRangeProofs RdnProofs GenerateProofs ValidateProofs TimeProofs AlgsProofs Base64Proofs PolicyProofs MergeProofs CliProofs OpsProofs FaultProofs HistoryProofs HashViewProofs Pkcs8Proofs RecoverProofs PemTornProofs AdmissionProofs PemProofs GlueProofs.
@@ -66,3 +67,27 @@ Theorem C02_shape :
     ((0 <= ob_serial o < 2 ^ 159)%Z -> (cc_serial c < 2 ^ 63)%Z -> (Datatypes.length (int_content (t_serial t)) <= 20)%nat).
 Proof. exact generated_shape. Qed.
 Print Assumptions C02_shape.
+
+(* the decoder side of canonicity: whatever the independent strict parser accepts is the one canonical DER encoding of the typed
+   certificate it returns - every INTEGER is minimal two's complement, every OID minimal base 128, BOOLEAN TRUE is FF and DEFAULT
+   FALSE / v1 are omitted, BIT STRINGs carry no unused bits, times have the UTCTime / GeneralizedTime form their year demands -
+   so decoding and re-encoding reproduces the input byte for byte *)
+Theorem C02_accepted_means_canonical :
+  forall (bs : bytes) (c : tcert), parse_cert bs = Some c -> cert_der c = Some bs.
+Proof. exact parse_cert_canonical. Qed.
+Print Assumptions C02_accepted_means_canonical.
+
+Theorem C02_integer_canonical :
+  forall (l : bytes) (z : Z), int_of_content l = Some z -> int_content z = l.
+Proof. exact int_content_of_content. Qed.
+Print Assumptions C02_integer_canonical.
+
+Theorem C02_oid_canonical :
+  forall (c : bytes) (arcs : list N), oid_of_content c = Some arcs -> oid_content arcs = Some c.
+Proof. exact oid_content_of_content. Qed.
+Print Assumptions C02_oid_canonical.
+
+Theorem C02_time_canonical :
+  forall (t : tlv) (c : civil), dec_time t = Some c -> der_time c = Some t.
+Proof. exact der_time_of_dec_time. Qed.
+Print Assumptions C02_time_canonical.
